@@ -17,16 +17,39 @@
   Proofs: `Proofs/GenText.lean` (case analysis on the format byte and the decisions, `simp`, `omega`).
 -/
 import Proofs.GenText
+import Proofs.TrailingZeros
 
 namespace Decimal.CGenT
 
 open Decimal Decimal.GenText
 
 theorem append_eq (x : Dec) (fmtc : Char) (prec : Int) (hp : -2147483648 ≤ prec ∧ prec ≤ 2147483647)
-    (hx : Small x) (h1 : ∀ p, Small (roundBelowQuantum x p))
-    (h2 : ∀ r, Small (set { mode := x.mode, prec := r } x)) :
+    (hx : Small x) (h2 : ∀ r, Small (set { mode := x.mode, prec := r } x)) :
     append x fmtc prec = appendG x fmtc prec :=
-  GenText.append_eq x fmtc prec hp hx h1 h2
+  GenText.append_eq x fmtc prec hp hx h2
+
+/-- the hypotheses of `append_eq` are satisfiable: 0.5 with precision 1 (no copy of it needs rounding) -/
+private def half : Dec := ⟨.finite, false, 5000000000000000000, 1, 0, 1, .ToNearestEven, 0⟩
+
+private theorem tz_half : trailingZeros 5000000000000000000 = 18 := by
+  have h : (5000000000000000000 : Nat) = 5 * 10 ^ 18 := by decide
+  rw [h, trailingZeros_mul_pow (by decide : 0 < 5) 18, trailingZeros_of_mod_ne (by decide : 5 % 10 ≠ 0)]
+
+example : Small half ∧ ∀ r, Small (set { mode := half.mode, prec := r } half) := by
+  refine ⟨?_, ?_⟩
+  · unfold Small minPrec ex half DW
+    simp [tz_half]
+  · intro r
+    have hs : set { mode := half.mode, prec := r } half =
+        { half with prec := if r = 0 then 1 else r, acc := Exact } := by
+      unfold set half
+      by_cases h0 : r = 0
+      · subst h0; rfl
+      · have h1 : ¬ r < 1 := by omega
+        simp [h0, h1, Decimal.Exact]
+    rw [hs]
+    unfold Small minPrec ex half DW
+    simp [tz_half]
 
 /-- executed at build time (a test, not a theorem): the re-assembled `Append` prints what the model prints -/
 private def xEx : Dec := ⟨.finite, true, 9950000000000000000, 1, -2, 5, .ToNearestEven, 0⟩
